@@ -278,8 +278,12 @@ impl Layout {
     }
     /// the eight arguments of the `cfg.load*` requests
     fn load_args(&self, file_dir: Option<&Path>, o: &Opts) -> String {
+        self.load_args_ch(file_dir, o, true)
+    }
+    fn load_args_ch(&self, file_dir: Option<&Path>, o: &Opts, nightly: bool) -> String {
         format!(
-            "1 {} {} {} {} {} {} {}",
+            "{} {} {} {} {} {} {} {}",
+            nightly as u8,
             self.model_tree(),
             enc_dir(&self.home),
             enc_dir(&self.config_dir()),
@@ -1307,6 +1311,83 @@ fn stage_loads(ctx: &Ctx, o: &mut Outcome, layouts: &[Layout], obs: &[LoadObs], 
     api_answers
 }
 
+/// `rustfmt` built with CFG_RELEASE_CHANNEL=stable (is_nightly_channel!() is a compile-time test)
+fn build_stable_bin() -> Result<PathBuf, String> {
+    let dir = cli::build_dir().join("repo-stable-target");
+    let out = Command::new("cargo")
+        .current_dir(repo_dir())
+        .args(["build", "--offline", "--bin", "rustfmt", "--target-dir"])
+        .arg(&dir)
+        .env("CFG_RELEASE_CHANNEL", "stable")
+        .env("CARGO_NET_OFFLINE", "true")
+        .output()
+        .map_err(|e| format!("cargo: {}", e))?;
+    if !out.status.success() {
+        return Err(String::from_utf8_lossy(&out.stderr).chars().rev().take(600).collect::<String>().chars().rev().collect());
+    }
+    let bin = dir.join("debug").join("rustfmt");
+    if bin.exists() { Ok(bin) } else { Err("binary missing after the build".into()) }
+}
+
+/// The stable release channel: a config file cannot set unstable options (or unstable variants),
+/// `--config` can.  `--print-config current` of the stable binary against cfg.loadtoml with
+/// Env.nightly = false, and theorem stable_channel_gating as an oracle on the printed values.
+fn stage_stable(ctx: &Ctx, o: &mut Outcome, layouts: &[Layout], obs: &[LoadObs]) {
+    let bin = match build_stable_bin() {
+        Ok(b) => b,
+        Err(e) => {
+            o.notes.push(format!("stable-channel binary could not be built, the stable route was not run: {}", e));
+            o.count("stable:build-failed");
+            return;
+        }
+    };
+    let sctx = Ctx { s: Schema::new(), enums: BTreeMap::new(), bin, work: ctx.work.clone(), empty_home: ctx.empty_home.clone(), neutral: ctx.neutral.clone(), jobs: ctx.jobs };
+    let idx: Vec<usize> = (0..obs.len()).collect();
+    let runs: Vec<cli::Ran> = par_map(&idx, |i| {
+        let b = &obs[*i];
+        let l = &layouts[b.layout];
+        let dir = b.file_dir.as_ref().unwrap();
+        let file = l.sources.iter().find(|(p, _)| p.parent() == Some(dir.as_path())).map(|(p, _)| p.clone()).unwrap_or_else(|| dir.join("nofile.rs"));
+        let mut args = b.opts.argv();
+        args.push("--print-config".into());
+        args.push("current".into());
+        args.push(file.to_string_lossy().into_owned());
+        run_bin(&sctx, &l.root, &l.home, l.xdg.as_deref(), &args, b"")
+    });
+    for (b, r) in obs.iter().zip(runs.iter()) {
+        let l = &layouts[b.layout];
+        let dir = b.file_dir.as_ref().unwrap();
+        if r.timed_out {
+            o.count("stable:timeout");
+            continue;
+        }
+        let expect = if r.code == Some(0) {
+            match parse_printed(&ctx.s, &r.out_str()) {
+                Ok(e) => e,
+                Err(e) => format!("!unparsed:{}", e),
+            }
+        } else {
+            bin_err_kind(r)
+        };
+        o.count("stable:print-config");
+        let desc = format!("[stable-channel] rustfmt(stable) --print-config current {} <file in {}> in {}", b.opts.describe(), dir.display(), l.describe());
+        if r.code == Some(0) {
+            // no unstable option differs from its default unless --config names it
+            let vals: BTreeMap<String, String> = expect.split(';').filter_map(|kv| kv.split_once('=').map(|(k, v)| (k.to_string(), v.to_string()))).collect();
+            o.direct_evals += 1;
+            for (k, v) in &vals {
+                if ctx.s.stable.get(k) == Some(&false) && k != "version" && !b.opts.inline.iter().any(|t| &t.key == k) {
+                    let d = ctx.s.enc_val(k, &ctx.s.canon(k, ctx.s.default_display.get(k).map(|x| x.as_str()).unwrap_or("")));
+                    if &d != v && !(k == "emit_mode" || k == "make_backup" || k == "color" || k == "skip_children" || k == "error_on_unformatted" || k == "unstable_features") {
+                        o.direct_failures.push(json!({"sig": "c14:stable-channel-gating", "what": format!("on the stable channel the unstable option {} = {} although no --config names it (default {})", k, dec_model_val(v), dec_model_val(&d)), "case": desc}));
+                    }
+                }
+            }
+        }
+        o.push("corr", "cfg.loadtoml", format!("cfg.loadtoml {}", l.load_args_ch(Some(dir), &b.opts, false)), expect, desc, !all_config_files(l).is_empty());
+    }
+}
+
 /// style_edition / version / edition: every combination in the file x a list of command lines
 fn gen_precedence(ctx: &Ctx, base: &Path, first_layout: usize) -> (Vec<Layout>, Vec<LoadObs>, Vec<(usize, usize)>) {
     let ses = ["", "2015", "2018", "2021", "2024", "2027"];
@@ -1733,6 +1814,12 @@ pub fn run(tier: &str, seed: u64, out: &Path) -> i32 {
     let (with_file, api_only): (Vec<LoadObs>, Vec<LoadObs>) = obs.into_iter().partition(|b| b.file_dir.as_ref().map(|d| layouts[b.layout].sources.iter().any(|(p, _)| p.parent() == Some(d.as_path()))).unwrap_or(false));
     stage_loads(&ctx, &mut o, &layouts, &with_file, &|_| true);
     stage_loads(&ctx, &mut o, &layouts, &api_only, &|_| false);
+
+    // the stable channel (binary only: the channel is a compile-time constant)
+    {
+        let n_stable = if thorough { with_file.len() } else { with_file.len().min(160) };
+        stage_stable(&ctx, &mut o, &layouts, &with_file[with_file.len() - n_stable..]);
+    }
 
     // style_edition / version / edition precedence
     {
